@@ -1741,13 +1741,32 @@ class InTablePhase(Phase):
             assert self.parser.innerHTML
         # Stop parsing
 
+    def currentNodeTakesTableText(self):
+        currentNode = self.tree.openElements[-1]
+        return (currentNode.namespace == self.tree.defaultNamespace and
+                currentNode.name in ("table", "tbody", "tfoot", "thead", "tr"))
+
     def processSpaceCharacters(self, token):
+        if not self.currentNodeTakesTableText():
+            # anything else: in-body rules, with foster parenting
+            previous = self.tree.insertFromTable
+            self.tree.insertFromTable = True
+            self.parser.phases["inBody"].processSpaceCharacters(token)
+            self.tree.insertFromTable = previous
+            return
         originalPhase = self.parser.phase
         self.parser.phase = self.parser.phases["inTableText"]
         self.parser.phase.originalPhase = originalPhase
         self.parser.phase.processSpaceCharacters(token)
 
     def processCharacters(self, token):
+        if not self.currentNodeTakesTableText():
+            # anything else: in-body rules, with foster parenting
+            previous = self.tree.insertFromTable
+            self.tree.insertFromTable = True
+            self.parser.phases["inBody"].processCharacters(token)
+            self.tree.insertFromTable = previous
+            return
         originalPhase = self.parser.phase
         self.parser.phase = self.parser.phases["inTableText"]
         self.parser.phase.originalPhase = originalPhase
